@@ -25,8 +25,11 @@ def sh(cmd, cwd=None, env=None, timeout=1200):
 
 def suite(wt):
     out = f"/tmp/vet_{os.getpid()}.xml"
-    env = dict(os.environ, PYTHONPATH=wt)
+    hyp = f"/tmp/vet_hyp_{os.getpid()}"
+    shutil.rmtree(hyp, ignore_errors=True)
+    env = dict(os.environ, PYTHONPATH=wt, HYPOTHESIS_STORAGE_DIRECTORY=hyp)      # no example database carried over between runs
     env.pop("PUAN_PYTHON_VERIF", None)
+    shutil.rmtree(os.path.join(wt, ".hypothesis"), ignore_errors=True)
     sh([PY, "-m", "pytest", "-ra", "-q", "-p", "no:cacheprovider", "--timeout=900", "--continue-on-collection-errors", "--junitxml=" + out], cwd=wt, env=env)
     stable = set(json.load(open("/root/.vp/BASELINE.json"))["stable_pass"])
     ok = set()
@@ -37,6 +40,8 @@ def suite(wt):
     finally:
         if os.path.exists(out):
             os.remove(out)
+        shutil.rmtree(hyp, ignore_errors=True)
+        shutil.rmtree(os.path.join(wt, ".hypothesis"), ignore_errors=True)
     return sorted(stable - ok), len(ok)
 
 
@@ -62,6 +67,11 @@ def main():
         return 1
     try:
         missing, npass = suite(wt)
+        if missing:
+            # tests::test_model_json_conversion can find an unrelated duplicate-proposition example by chance (hypothesis,
+            # seen on the clean tree too): a single retry with a fresh example database decides
+            rep["suite_first_run_missing"] = missing
+            missing, npass = suite(wt)
         rep["suite_with_patch"] = {"passed": npass, "stable_missing": missing}
         rc, out = sh([PY, demo], cwd=wt, env=env)
         rep["demo_patched"] = {"exit": rc, "tail": out[-600:]}
